@@ -24,8 +24,8 @@ class Forest:
             if nid is None:
                 e = dict(e)
                 e["par"] = par
-                if par != 0:
-                    e.pop("pre", None)
+                if par != 0 and e.get("k") == "call":
+                    e.pop("pre", None)          # a call's pre-state is its parent's post-state
                 self.nodes.append(e)
                 self.kids.append([])
                 nid = len(self.nodes)
